@@ -131,7 +131,7 @@ def main():
         checks.append({
             'property_id': pid,
             'quick_cmd': f'./check {pid} --tier quick',
-            'thorough_cmd': f'./check {pid} --tier thorough --budget 3000',
+            'thorough_cmd': f'./check {pid} --tier thorough --budget 1500',
             'evidence_file': f'/verif/evidence/{pid}.json',
             'replay_cmd_template': f'./check {pid} --replay {{path}}',
             'engine': 'mc',
